@@ -474,6 +474,14 @@ func hangFinger(h *simrt.HangReport) string {
 			set[siteFunc(g.Site)] = true
 		}
 	}
+	if len(set) == 0 {
+		// no goroutine is marked as a client call: name every blocked one
+		for _, g := range h.Goroutines {
+			if g.State != "dead" && g.State != "done" {
+				set[siteFunc(g.Site)] = true
+			}
+		}
+	}
 	var parts []string
 	for p := range set {
 		parts = append(parts, p)
